@@ -8,14 +8,18 @@ Spaces (DESIGN.md section 4, C15). Every space is a finite product that is enume
             conversion path   angles -> SO(3) -> angles -> SO(3) -> angles -> SO(3)   and   SO(3) -> SU(2) -> SO(3),
             every step compared; the whole (alpha,gamma) grid once more as ONE batch and through broadcasting.
   su2grid : the same with gamma on [0,4pi): angles -> SU(2) -> angles -> SU(2) (sign-exact: su2_to_angle documents
-            gamma in (0,4pi)), SU(2) -> SO(3) (two-to-one: U and -U), SO(3) -> SU(2) (equal up to the documented sign).
+            gamma in (0,4pi)), SU(2) -> SO(3) (two-to-one: U and -U), SO(3) -> SU(2) (equal up to the documented sign);
+            the whole grid as one batch and angle_to_su2 through broadcasting (alpha (NA,1), beta scalar, gamma (1,2NA)).
+            Finding keys of both grids and of the pair products share the site "roundtrip" (suffix = beta class of the
+            input: beta=0 | beta=pi | zero_eps_band_at_* | near_* | interior); whole-grid calls use the site "gridbatch".
   pairs   : rotation alphabet = the complete octahedral rotation group as exact signed permutation matrices / the
             complete binary octahedral group (48 elements) + z-rotations by awkward angles + near-degenerate elements +
             generic atoms; ALL ordered pairs: su2_to_so3(U1 U2) = R1 R2, so3_to_su2(R1 R2) = +-U1 U2, the round trips on
             every product (products of axis-aligned rotations are again gimbal-locked), and for every j2:
             D(U1 U2) = D(U1) D(U2), D unitary, D equal to the symmetric-power reference.
   irrep   : get_su2_irrep(j2, .) on an Euler grid (poles included, gamma on [0,4pi)): angle entry and matrix entry agree with
-            each other and with the symmetric-power reference, unitary, cold and warm coefficient cache.
+            each other and with the symmetric-power reference, unitary, cold and warm coefficient cache; the angle entry
+            once more through broadcasting per beta.
   batch   : ALL ordered tuples of length 1..3 (and all 2x2, 1x3, 3x1 arrangements) over an alphabet of 8 rotations
             (3 at beta=0, 2 at beta=pi, 1 inside the zero_eps band, 2 generic atoms) for every batch-taking function:
             the batched call equals the element-wise calls, whatever the mixture.
